@@ -619,6 +619,9 @@ fn c42_canary_remove_clock_rows_fixed() {
 
 #[cfg(all(kani, test))]
 mod replay {
+    extern crate std;
+    #[allow(unused_imports)]
+    use std::{vec, vec::Vec};
     use super::*;
     include!(concat!(env!("VERIF_REPLAY_DIR"), "/statime_algo__estimator.rs"));
 }
